@@ -52,10 +52,13 @@ def atom(e):
     return render(e) if e[0] in ('cell', 'lit', 'txt', 'bool', 'if', 'iferror', 'ifs', 'sum', 'raise') else '(%s)' % render(e)
 
 
+ENV = dict()      # the cell values in force for the case being built: workbook constants + overrides
+
+
 def coq(e):
     k = e[0]
     if k == 'cell':
-        v = CELLS.get(e[1])
+        v = ENV.get(e[1])
         return '(Leaf %s)' % (C.cval(v) if v is not None else 'VEmpty')
     if k == 'lit':
         return '(Leaf (VInt %s))' % C.cz(e[1])
@@ -175,7 +178,9 @@ def make_case(rc):
     e = rc['e']
     e = tuplify(e)
     formula = '=' + render(e)
-    out = I.eval_formula(formula, CELLS, addr='H9')
+    ov = {k: C.jdec(v) for k, v in (rc.get('overrides') or {}).items()}
+    ENV.clear(); ENV.update(CELLS); ENV.update(ov)
+    out = I.eval_formula(formula, CELLS, addr='H9', overrides=[I.Cell(0, *I.a1(k), v) for k, v in ov.items()] or None)
     reprs = C.clist(['(%s, %s)' % (C.cfloat(f), C.cstr(repr(f))) for f in set([2.5, 5.0, 12.5] + rc.get('floats', []))])
     coq_term = 'CC %s %s %s' % (coq(e), reprs, C.cres(out))
     return {'recipe': dict(rc, formula=formula), 'coq': coq_term, 'key': formula, 'nontrivial': depth(e) >= 2 or 'div0' in repr(e) or 'raise' in repr(e) or '#N/A' in repr(e)}
@@ -217,10 +222,25 @@ def run(R, tier):
     recipes = corpus()
     while len(recipes) < n:
         e = gen_expr(R.rng, R.rng.choice([1, 2, 2, 3]))
+        forced = None
+        if R.rng.random() < 0.1:
+            # IFERROR over a BARE reference to a plain constant cell whose value arrives as an error through set_cells
+            c = R.rng.choice(['A1', 'A4', 'A9', 'B2'])
+            core = ('iferror', ('cell', c), R.rng.choice([('lit', -1), ('cell', 'B2'), ('txt', 'bad')]))
+            e = R.rng.choice([core, ('bin', '+', core, ('lit', 1)), ('if', ('cmp', '>', core, ('lit', 3)), ('txt', 'big'), ('txt', 'small')), ('iferror', core, ('lit', -7))])
+            forced = {c: C.jenc(R.rng.choice(['#N/A', '#DIV/0!', '#VALUE!', '#REF!', 5]))}
         import re as _re
         # a * or ? between two double quotes is lexed as ONE wildcard-pattern literal (a lexer defect recorded under C05/C07): keep clear of it
         if size(e) <= 14 and e[0] not in ('cell', 'lit', 'txt', 'div0', 'raise') and not _re.search(r'".*[?*].*"', render(e)):
-            recipes.append({'e': e})
+            rc = {'e': e}
+            if forced:
+                rc['overrides'] = forced
+            elif R.rng.random() < 0.3:
+                # some referenced cells get their value through set_cells: error values, other numbers, texts (a decision taken at
+                # translation time from the workbook's constant would be stale here)
+                ks = R.rng.sample(['A1', 'A4', 'A5', 'A6', 'A9', 'B2'], R.rng.randint(1, 3))      # not A2, A3, A7: the raising sub-expressions read them
+                rc['overrides'] = {k: C.jenc(R.rng.choice(['#N/A', '#DIV/0!', '#VALUE!', 7, 0, 'y', 3])) for k in ks}
+            recipes.append(rc)
     cases = [make_case(rc) for rc in recipes]
     for c in cases[:2] + cases[-3:]:
         R.sample({'formula': c['recipe']['formula']})
